@@ -205,6 +205,32 @@ func TestC06(t *testing.T) {
 			return map[string]any{"scenario": "join request to a node that is in the middle of its own graceful leave (one membership change holds it)"}
 		}, "scenario:join-while-contacted-node-is-leaving")
 	}
+	// scenario tier: a leave that its successor granted fails at the leaver itself
+	if p := leaveFailsLocallyAfterSuccessorGranted(); p != "" {
+		if len(p) > 13 && p[:13] == "precondition:" {
+			rec.Inconclusive("scenario-precondition")
+			t.Logf("leave-fails-locally scenario: %s", p)
+		} else {
+			rec.Fail(t, "failed-leave-attempt-leaves-successor-locked", map[string]any{"schedule": "ring {1<<44, 2<<44, 3<<44}; 3<<44 leaves: RequestToLeave to its successor 1<<44 is granted, the reply is held; 5<<43 joins via 3<<44 and gets its lock, the joiner's FinishJoin(release) is held; the grant is delivered; releases follow", "problem": p}, "%s", p)
+		}
+	} else {
+		rec.Case(true, "scenario:leave-fails-at-the-leaver-after-grant", func() any {
+			return map[string]any{"scenario": "leave attempt granted by the successor fails at the leaver itself (locked by a join): both must return to serving"}
+		}, "scenario:leave-fails-at-the-leaver-after-grant")
+	}
+	// scenario tier: the only member is asked to leave while the first join holds its lock
+	if p := soleMemberLeavesDuringFirstJoin(); p != "" {
+		if len(p) > 13 && p[:13] == "precondition:" {
+			rec.Inconclusive("scenario-precondition")
+			t.Logf("sole-member-leaves scenario: %s", p)
+		} else {
+			rec.Fail(t, "leave-processed-while-granted-join-holds-the-lock", map[string]any{"schedule": "ring {2<<44}; 1<<44 joins, its advisory FinishJoin(stabilize) to 2<<44 is held on the wire (2<<44 is Transferring: membership lock held by the join); Leave() of 2<<44; advisory released", "problem": p}, "%s", p)
+		}
+	} else {
+		rec.Case(true, "scenario:sole-member-leaves-during-first-join", func() any {
+			return map[string]any{"scenario": "Leave() of the only member while the first join holds its membership lock"}
+		}, "scenario:sole-member-leaves-during-first-join")
+	}
 	// schedule-stress tier: simultaneous membership requests at ONE real node, scripted neighbours
 	{
 		p, replay, done, contended := membershipLockStress(ev.ShardSeed(), ev.Pick(300000, 2000000))
